@@ -66,6 +66,39 @@ bool call_direct(int fam, int n, T* a, CSwap cs) {
     return false;
 }
 
+#define C15_ARR_DEF(NS, N) \
+    case N: tlx::sort_networks::NS::sort##N(a); return true;
+#define C15_ARR_DEF_BEST(N) C15_ARR_DEF(best, N)
+#define C15_ARR_DEF_BN(N) C15_ARR_DEF(bose_nelson, N)
+#define C15_PAR_DEF(N) \
+    case N: tlx::sort_networks::bose_nelson_parameter::sort##N(C15_P##N); return true;
+
+//! direct call with the documented default `CSwap cswap = CSwap()` (std::less via CS_IfSwap)
+template <typename T>
+bool call_direct_default(int fam, int n, T* a) {
+    switch (fam) {
+    case BEST:
+        switch (n) { C15_ALL(C15_ARR_DEF_BEST) default: return false; }
+    case BOSE_NELSON:
+        switch (n) { C15_ALL(C15_ARR_DEF_BN) default: return false; }
+    case BOSE_NELSON_PARAMETER:
+        switch (n) { C15_ALL(C15_PAR_DEF) default: return false; }
+    }
+    return false;
+}
+
+//! dispatching call with the default comparator
+template <typename T>
+bool call_dispatch_default(int fam, int n, T* a) {
+    if (n < 0 || n > 16) return false;
+    switch (fam) {
+    case BEST: tlx::sort_networks::best::sort(a, a + n); return true;
+    case BOSE_NELSON: tlx::sort_networks::bose_nelson::sort(a, a + n); return true;
+    case BOSE_NELSON_PARAMETER: tlx::sort_networks::bose_nelson_parameter::sort(a, a + n); return true;
+    }
+    return false;
+}
+
 //! call the size-dispatching entry point (precondition 0 <= n <= 16, else tlx abort()s)
 template <typename T, typename Cmp>
 bool call_dispatch(int fam, int n, T* a, Cmp cmp) {
